@@ -400,7 +400,13 @@ def h_from_points(npts, align, pad_mode):
         rows = [[x, y] for x, y in pts]
         coords = list(pts)
         xy = _MaskedPoints(rows, finxy)
+    before = xy.copy() if symx.concrete_mode() else [list(r) for r in rows]
     ry, rx = roi.roi_from_points(xy, (ny, nx), padding, align=None if align == 0 else align)
+    # the caller's points are read, not written (the same array is typically used again for another image)
+    if symx.concrete_mode():
+        prove("pts:callers_array_left_as_it_was", bool(real_np.array_equal(xy, before, equal_nan=True)))
+    else:
+        prove("pts:callers_array_left_as_it_was", And(*[a_ == b_ for r0, r1 in zip(before, rows) for a_, b_ in zip(r0, r1)]) if rows else True)
     prove("pts:within", And(0 <= rx.start, rx.stop <= nx, 0 <= ry.start, ry.stop <= ny))
     prove("pts:ordered", And(rx.start <= rx.stop, ry.start <= ry.stop))
     anyfin = Or(*fin) if fin else False
@@ -503,6 +509,30 @@ def _install_masked():
         return _isf(a)
 
     NP.isfinite = staticmethod(isfinite)
+    _clip, _asarray = NP.clip, NP.asarray
+
+    def clip(a, lo, hi, out=None):
+        if isinstance(a, _MaskedPoints):
+            # numpy semantics incl. the in-place form: out=a overwrites the caller's array
+            if not all(bool(And(fx, fy)) for fx, fy in a.fin):
+                raise symx.Unsupported("clip of points that are not all finite")
+            rows = [[npmodel.f_clip(v, lo, hi) for v in r] for r in a.rows]
+            if out is a:
+                for r, nr in zip(a.rows, rows):
+                    r[:] = nr
+                return a
+            if out is not None:
+                raise symx.Unsupported("clip into another array")
+            return _MaskedPoints(rows, a.fin)
+        return _clip(a, lo, hi, out=out)
+
+    def asarray(x, dtype=None):
+        if isinstance(x, _MaskedPoints):
+            return x  # a float64 array is handed back as it is (no copy)
+        return _asarray(x, dtype) if dtype is not None else _asarray(x)
+
+    NP.clip = staticmethod(clip)
+    NP.asarray = staticmethod(asarray)
     NP._masked = True
 
 
